@@ -56,6 +56,11 @@ def gen_ifaces(rng):
     for name, ms in fixed:
         ifaces.append({"name": name, "methods": [{"name": m[0], "params": [list(p) for p in m[1]], "results": list(m[2]), "variadic": m[3]} for m in ms], "embeds": []})
     ifaces.append({"name": "Embeds", "methods": [{"name": "N", "params": [["t", "orig.T"]], "results": [], "variadic": False}], "embeds": ["Alone"]})
+    # a type declared in the interfaces' own package is replaced too; a type *parameter* that happens to carry the same identifier is not that type
+    ifaces.append({"name": "UsesLocal", "methods": [{"name": "M", "params": [["l", "LT"], ["n", "int"]], "results": ["LT", "error"], "variadic": False}], "embeds": []})
+    ifaces.append({"name": "GenShadow", "tparams": "[LT any, Other comparable]", "tnames": ["LT", "Other"],
+                   "methods": [{"name": "Get", "params": [["x", "LT"], ["k", "Other"]], "results": ["LT"], "variadic": False},
+                               {"name": "Real", "params": [["t", "orig.T"]], "results": ["orig.Other"], "variadic": False}], "embeds": []})
     for k in range(rng.randint(2, 5)):
         ms = []
         for j in range(rng.randint(1, 3)):
@@ -67,9 +72,9 @@ def gen_ifaces(rng):
 
 
 def render_src(ifaces):
-    lines = ["package svc", "", 'import (', '\t"example.com/m/ext/model"', '\t"example.com/m/orig"', ")", "", "var _ model.T", "var _ orig.T", ""]
+    lines = ["package svc", "", 'import (', '\t"example.com/m/ext/model"', '\t"example.com/m/orig"', ")", "", "var _ model.T", "var _ orig.T", "", "type LT struct{ L int }", ""]
     for i in ifaces:
-        lines.append("type %s interface {" % i["name"])
+        lines.append("type %s%s interface {" % (i["name"], i.get("tparams", "")))
         for e in i["embeds"]:
             lines.append("\t" + e)
         for m in i["methods"]:
@@ -100,9 +105,14 @@ def norm_probe(t, imports):
     return re.sub(r"\b([A-Za-z_][A-Za-z0-9_]*)\.", rep, t)
 
 
-def expected_types(iface, by_name, repl):
-    """method set of iface -> {(method, kind, idx): normalised type} under replacement map repl {typeName: (path, name)}"""
+LOCAL_REPL = {"LT": ("repa", "R1")}   # replacement of the type declared in package svc itself (always part of the setting)
+
+
+def expected_types(iface, by_name, repl, inpkg=True, local=False):
+    """method set of iface -> {(method, kind, idx): normalised type} under replacement map repl {typeName: (path, name)};
+    `local`: the svc.LT replacement is in force; `inpkg`: how an unreplaced svc type is named from the output file"""
     out = {}
+    tnames = set(iface.get("tnames") or [])
 
     def add_methods(i):
         for e in i["embeds"]:
@@ -117,6 +127,12 @@ def expected_types(iface, by_name, repl):
     def one(t, variadic):
         if variadic:
             return "[]" + norm_src(t)      # a variadic parameter's type is the slice: never an exact match
+        if t in tnames:
+            return t                        # a type parameter, whatever named type shares its identifier
+        if t == "LT":
+            if local:
+                return "<%s/%s>.%s" % (MOD, LOCAL_REPL["LT"][0], LOCAL_REPL["LT"][1])
+            return "LT" if inpkg else "<%s/svc>.LT" % MOD
         m = re.fullmatch(r"orig\.(\w+)", t)
         if m and m.group(1) in repl:
             path, name = repl[m.group(1)]
@@ -174,7 +190,8 @@ def eval_case(ctx, case):
     files = {k + "/t.go": v for k, v in PKGS.items()}
     files["svc/svc.go"] = render_src(ifaces)
     files["sig.templ"] = SIGPROBE
-    rt = {MOD + "/orig": {k: {"pkg-path": MOD + "/" + v[0], "type-name": v[1]} for k, v in case["repl"].items()}}
+    rt = {MOD + "/orig": {k: {"pkg-path": MOD + "/" + v[0], "type-name": v[1]} for k, v in case["repl"].items()},
+          MOD + "/svc": {k: {"pkg-path": MOD + "/" + v[0], "type-name": v[1]} for k, v in LOCAL_REPL.items()}}
     target = [i["name"] for i in ifaces]
     onefile = case["seed"] % 2 == 0   # all interfaces of the package in ONE output file: per-file state must not leak a decision from one mock to the next
     base = {"template": "file://sig.templ", "require-template-schema-exists": False, "formatter": "noop",
@@ -239,7 +256,7 @@ def eval_case(ctx, case):
         per, scoped_all, _ = results[with_rt]
         for nm in target:
             in_scope = with_rt and (scoped_all or nm not in ("OnlyOther", "Rand0"))
-            exp = expected_types(by_name[nm], by_name, repl if in_scope else {})
+            exp = expected_types(by_name[nm], by_name, repl if in_scope else {}, inpkg=case["placement"] == "inpkg", local=in_scope)
             imports, types = per[nm]
             got = {(m, k, i): re.sub(r"\s+", "", norm_probe(t, imports)) for (ifn, m, k, i), t in types.items() if ifn == nm}
             exp = {k: re.sub(r"\s+", "", v) for k, v in exp.items()}
